@@ -230,16 +230,22 @@ struct Reuse {
                         struct isal_zstream *st1 = (struct isal_zstream *) s1->data, *st2 = (struct isal_zstream *) s2->data;
                         std::vector<uint8_t> oa, ob1, ob2;
                         std::vector<int64_t> ta, tb1, tb2;
-                        isal_deflate_init(st1);
+                        if (GUARDED(gc, isal_deflate_init(st1))) {
+                                report_fault(rr, h, gc.fi, "isal_deflate_init");
+                                return;
+                        }
                         if (!deflate(st1, l1, a, oa, "isal_deflate (first use)", ta))
                                 return;
-                        if (how == 0) {
-                                isal_deflate_reset(st1);
-                                COUNT("mem.context_reuse_after_reset");
-                        } else {
-                                isal_deflate_init(st1);
-                                COUNT("mem.context_reuse_after_init");
+                        if (GUARDED(gc, {
+                                    if (how == 0)
+                                            isal_deflate_reset(st1);
+                                    else
+                                            isal_deflate_init(st1);
+                            })) {
+                                report_fault(rr, h, gc.fi, "isal_deflate_reset/init (reuse)");
+                                return;
                         }
+                        COUNT(how == 0 ? "mem.context_reuse_after_reset" : "mem.context_reuse_after_init");
                         if (a.abandon)
                                 COUNT("mem.abandon_midstream_then_reset");
                         if (!deflate(st1, l1, b, ob1, "isal_deflate (after reset)", tb1))
@@ -297,16 +303,22 @@ struct Reuse {
                 std::vector<uint8_t> oa, ob1, ob2;
                 std::vector<int64_t> ta, tb1, tb2;
                 uint32_t chunk = 1 + (uint32_t) ((uint64_t) plan.geti("ichunk") % 5000);
-                isal_inflate_init(st1);
+                if (GUARDED(gc, isal_inflate_init(st1))) {
+                        report_fault(rr, h, gc.fi, "isal_inflate_init");
+                        return;
+                }
                 if (!inflate(st1, ma, sa, chunk, a.abandon ? sa.size() / 2 : sa.size(), oa, ta))
                         return;
-                if (how == 2) {
-                        isal_inflate_reset(st1);
-                        COUNT("mem.context_reuse_after_reset");
-                } else {
-                        isal_inflate_init(st1);
-                        COUNT("mem.context_reuse_after_init");
+                if (GUARDED(gc, {
+                            if (how == 2)
+                                    isal_inflate_reset(st1);
+                            else
+                                    isal_inflate_init(st1);
+                    })) {
+                        report_fault(rr, h, gc.fi, "isal_inflate_reset/init (reuse)");
+                        return;
                 }
+                COUNT(how == 2 ? "mem.context_reuse_after_reset" : "mem.context_reuse_after_init");
                 if (a.abandon)
                         COUNT("mem.abandon_midstream_then_reset");
                 if (!inflate(st1, mb, sb, chunk, sb.size(), ob1, tb1))
